@@ -170,6 +170,19 @@ def newline_cases(tier):
                 yield 'triple-quoted-newlines', "%s'''%s'''" % (k, body)
 
 
+def quote_run_cases(tier):
+    """triple-quoted bodies over {a, ', ", escaped quote, backslash-n, LF}: runs of 1-2 quotes of the delimiter's kind next to escape pairs and
+    line breaks must not close the literal"""
+    n = 5 if tier == 'quick' else 6
+    sym = ['a', "'", '"', "\\'", '\\n', '\n']
+    for l in range(1, n + 1):
+        for t in itertools.product(sym, repeat=l):
+            body = ''.join(t)
+            for k in (['', 'b'] if tier == 'quick' else ['', 'b', 'r', 'f']):
+                for q in ("'''", '"""'):
+                    yield 'triple-quoted-quote-runs', '%s%s%s%s' % (k, q, body, q)
+
+
 def concat_cases(tier):
     # the last five: variable-length (octal) escapes at the seam of two pieces must not combine across it
     pieces = ["'s'", "u'u'", "b'b'", "r'\\r'", "rb'\\d'", "'''t\n'''", '"q"', "U'V'", "'\\0'", "'1'", "'\\12'", "b'\\1'", "b'7'"]
@@ -273,7 +286,7 @@ def run_shard(args):
 def run(tier, seed):
     t0 = time.time()
     jobs = []
-    gens = [esc_cases, name_cases, prefix_cases, newline_cases, concat_cases, big_numbers, float_cases]
+    gens = [esc_cases, name_cases, prefix_cases, newline_cases, quote_run_cases, concat_cases, big_numbers, float_cases]
     for g in gens:
         for ch in X.chunks(g(tier), 20000):
             jobs.append(('list', tier, ch))
@@ -291,10 +304,10 @@ def run(tier, seed):
     total.nontrivial = total.validated
     rule = ('escapes: \\c for all 128 ASCII c and 12 non-ASCII x %d prefix spellings x 4 quote styles; all \\xHH (+ malformed); all octal escapes 0..0o777 in 1/2/3-digit spellings x 5 followers; '
             'all 65536 \\uXXXX; \\U at plane boundaries/surrogates/limits; \\N{name} for %s character name known to unicodedata (+ aliases, malformed forms); backslash-newline x LF/CRLF/CR; raw-quote rule; '
-            'every prefix string of <=3 letters over rbufRBUF; every triple-quoted body of length<=%d over {a, LF, CR, backslash}; all pairs/triples of 13 literal kinds (incl. short octal escapes at the seam); every string of length<=%d over the '
+            'every prefix string of <=3 letters over rbufRBUF; every triple-quoted body of length<=%d over {a, LF, CR, backslash} and of <=%d symbols over {a, single quote, double quote, escaped quote, backslash-n, LF}; all pairs/triples of 13 literal kinds (incl. short octal escapes at the seam); every string of length<=%d over the '
             'number alphabet %r (thorough tier: also length 7 over the 10-symbol core 017_.e+jxb); integers 2^k, 2^k+-1 (k<=4096) and 10^k+-1 in four bases with underscores; floats m*10^e and the exact midpoints of adjacent doubles at binade boundaries; '
             'states = distinct literals; non-trivial = literals CPython accepts whose value was compared'
-            % (len(KINDS), 'every' if tier == 'thorough' else 'every 7th', 5 if tier == 'thorough' else 4, n, ''.join(NUM_SIGMA)))
+            % (len(KINDS), 'every' if tier == 'thorough' else 'every 7th', 5 if tier == 'thorough' else 4, 6 if tier == 'thorough' else 5, n, ''.join(NUM_SIGMA)))
     return C.finish(PROP, tier, seed, t0, total, rule,
                     ['CPython 3.11 ast.parse(literal, mode="eval") defines the value (lone surrogates compared as U+FFFD)', 'f-string kinds are only checked for "is an f-string" here (C07 compares their parts)'],
                     C.py_version())
